@@ -54,7 +54,9 @@ HOW = {
     "dbopen": ["garbage", "schema-version"],
     "exitx": [None, "fatal: text"],
 }
-HOW_F = {"connect": ["fake", "real-refused"], "power": ["fake", "real-refused"], "lock": ["nodir", "notdir"]}
+HOW_F = {"connect": ["fake", "real-refused"], "power": ["fake", "real-refused"], "lock": ["nodir", "notdir"],
+         # Ctrl-C at the tester-present stop: after the task is gone / while teardown is about to await the task
+         "tpStop": ["after", "on-entry"]}
 RES = ["lock", "art", "db", "hooks"]
 
 
@@ -130,6 +132,8 @@ def describe(c):
     parts = [c["kind"]] + [r for r in RES + FLAGS if c[r]]
     parts += [f"{k}={c[k]}" for k in SCRIPT_ORDER if c[k] not in ("ok", "started")]
     w = c["world"]
+    if c["f_tpStop"] == "cancel" and (c.get("how") or {}).get("tpStop") == "on-entry":
+        parts.append("ctrl-c-before-the-tester-present-task-is-awaited")
     if w["lock"] != "free":
         parts.append("lockfile=" + w["lock"])
     if w["base"] != "ok":
@@ -328,6 +332,8 @@ def pick_how(rng, c):
             how.setdefault(k, rng.choice(HOW[k]))
     if c.get("dbopen") == "fail":
         how.setdefault("dbopen", rng.choice(HOW["dbopen"]))
+    if c.get("f_tpStop") == "cancel":
+        how.setdefault("tpStop", rng.choice(HOW_F["tpStop"]))
     if how:
         c["how"] = how
     return c
@@ -395,6 +401,13 @@ def build_cases(ctx):
             for res in (all_res() if full else ["1111", "0110", "0100"]):
                 cases.append(("framework-steps", mk(kind, res, flags="1111", f_dumpcap=d)))
                 cases.append(("framework-steps", pick_how(rng, mk(kind, res, flags="1111", f_dumpcap=d, f_connect="conn"))))
+        if kind == "uds":   # Ctrl-C at the tester-present stop, both moments x both mechanisms
+            for when in HOW_F["tpStop"]:
+                for mech in HOW["cancel"]:
+                    for res in ("1111", "0110", "0000"):
+                        for sc in ({}, {"main": "exit:3"}):
+                            cases.append(("framework-steps", mk(kind, res, flags=rng.choice(["0010", "0011", "1111"]), f_tpStop="cancel",
+                                                                how={"cancel": mech, "tpStop": when}, **sc)))
         # the real transport / the real power supply driver against a port nobody listens on
         for res in ("1111", "0110", "0000"):
             cases.append(("refused-connection", mk(kind, res, flags="1111", f_connect="conn", how={"connect": "real-refused"})))
@@ -418,6 +431,15 @@ def build_cases(ctx):
         pairs = rng.sample(pairs, 160)
     for kind, a, p, b in pairs:
         cases.append(("main-x-framework-teardown", pick_how(rng, mk(kind, "1111", flags="1111", main=a, **{"f_" + p: b}))))
+    # 5b. order of the steps: two neighbouring steps both failing, with different exit codes (the first one must win)
+    for kind in ("scanner", "uds"):
+        for seq in ([p for p in FSETUP if p in fpoints_of(kind)] + ["setup"],
+                    ["tdPre"] + [p for p in FTEARDOWN if p in fpoints_of(kind)] + ["tdPost"]):
+            for p, q in zip(seq, seq[1:]):
+                for a, b in (("exit:3", "conn"), ("other", "kbd"), ("uds", "exit:5")):
+                    key = lambda x: x if x in POINTS else "f_" + x  # noqa: E731
+                    cases.append(("neighbouring-steps", pick_how(rng, mk(kind, rng.choice(["1111", "0110"]), flags="1111",
+                                                                          **{key(p): a, key(q): b}))))
     # 6. the prologue: lock file free / held by another descriptor / not lockable x artifacts base situations
     for kind in (KINDS if full else ["plain", "uds"]):
         for lock in ("free", "busy", "broken"):
